@@ -25,11 +25,11 @@ namespace {
   bool g_slot_used[NSLOT];
 
   class Worker {
-    std::thread th;
     std::mutex m;
     std::condition_variable cv;
     std::function<void()> job;
     bool has_job = false, done = false, quit = false;
+    std::thread th;      // declared last: the thread starts in the constructor and must see the members above initialised
 
     void loop() {
       std::unique_lock<std::mutex> l(m);
@@ -139,4 +139,4 @@ namespace {
   }
 } // namespace
 
-int main() { return vf::run_cases(run_history); }
+int main() { return vf::run_cases(run_history, true, 60); }   // a history that hangs is an observation (SIG(14))
